@@ -95,7 +95,15 @@ func (t *Trie) BuildFailureLinks() {
 // Match returns true if the text contains any of the patterns in the trie.
 func (t *Trie) Match(text string) bool {
 	node := &t.root
-	for _, v := range text {
+	for i := 0; i < len(text); {
+		v, size := decodeRune(text, i)
+		i += size
+		if v == utf8.RuneError && size == 1 {
+			// an invalid byte is not the encoding of any pattern rune (in particular not of U+FFFD)
+			node = &t.root
+			continue
+		}
+
 		idx := t.index(node.children, v)
 		for node != &t.root && idx < 0 {
 			node = node.fail
@@ -341,6 +349,11 @@ func (t *Trie) find(text string, scopes *[]scope) {
 	for i := 0; i < len(text); {
 		r, size = decodeRune(text, i)
 		i += size
+		if r == utf8.RuneError && size == 1 {
+			// an invalid byte is not the encoding of any pattern rune (in particular not of U+FFFD)
+			node = &t.root
+			continue
+		}
 
 		idx := t.index(node.children, r)
 		for node != &t.root && idx < 0 {
